@@ -1520,8 +1520,14 @@ func checkC18(w *World) {
 // (an accumulator may be appended to, but the decision what to collect from one context node must not
 // depend on the nodes processed before it: the incoming set may be in either document order).
 func selectorLocal(fn *ssa.Function) (bool, string) {
-	if len(fn.Params) != 1 {
+	if len(fn.Params) < 1 {
 		return false, "unexpected signature"
+	}
+	// further parameters select a variant of the axis (`selectAncestors(set, orSelf)`): plain values, not state
+	for _, p := range fn.Params[1:] {
+		if _, isBasic := p.Type().Underlying().(*types.Basic); !isBasic {
+			return false, "unexpected signature"
+		}
 	}
 	ok := true
 	why := "the result is built by appending, per element of the incoming node-set, values computed from that element only"
